@@ -3,15 +3,21 @@
 //!
 //! vh <family> --out <file> [--seed N] [--tier quick|thorough] [--replay <file>]
 
+mod alloc;
 mod anyq;
 mod core;
 mod hooks;
 mod mmio;
 mod out;
+mod scen_layout;
 mod scen_vq;
+mod zoo;
 mod transport;
 
 use serde_json::{Value, json};
+
+#[global_allocator]
+static ALLOC: alloc::Interpose = alloc::Interpose;
 use std::sync::Arc;
 use std::sync::atomic::{AtomicUsize, Ordering};
 
@@ -90,6 +96,7 @@ fn main() {
     let args = parse_args();
     let code = match args.family.as_str() {
         "vq" => family_vq(&args),
+        "layout" => family_layout(&args),
         f => {
             eprintln!("unknown family {f}");
             2
@@ -145,6 +152,22 @@ fn family_vq(args: &Args) -> i32 {
     let index: Vec<Value> = jobs.iter().enumerate().map(|(k, p)| json!({"sc": format!("vq-{k}"), "params": p.to_json()})).collect();
     let res = run_parallel(jobs, |p, k| { let o = run(p, &format!("vq-{k}")); (o.lines, o.summary) }, out.clone());
     let idx = json!({"family":"vq","scenarios":index,"summaries":res,"events":out.events.load(Ordering::Relaxed)});
+    std::fs::write(format!("{}.index.json", args.out), serde_json::to_string(&idx).unwrap()).unwrap();
+    0
+}
+
+fn family_layout(args: &Args) -> i32 {
+    use scen_layout::*;
+    let jobs: Vec<LayoutParams> = if let Some(r) = &args.replay {
+        let v: Value = serde_json::from_str(&std::fs::read_to_string(r).expect("replay file")).expect("json");
+        vec![LayoutParams::from_json(&v["params"])]
+    } else {
+        all_params(args.tier == "thorough")
+    };
+    let out = Arc::new(out::Out::create(&args.out));
+    let index: Vec<Value> = jobs.iter().enumerate().map(|(k, p)| json!({"sc": format!("layout-{k}"), "params": p.to_json()})).collect();
+    let res = run_parallel(jobs, |p, k| run(p, &format!("layout-{k}")), out.clone());
+    let idx = json!({"family":"layout","scenarios":index,"summaries":res,"events":out.events.load(Ordering::Relaxed)});
     std::fs::write(format!("{}.index.json", args.out), serde_json::to_string(&idx).unwrap()).unwrap();
     0
 }
